@@ -6,7 +6,7 @@ device values scripted so that order is observable), flags reads of unassigned t
 """
 import random
 
-from harness import common, gen, refcheck
+from harness import common, gen, refcheck, positions
 
 PID = "C05"
 CONV = ("INT", "VAL", "STR$", "HEX$", "INSTR", "STRING$", "INKEY$", "BUTTON", "JOYSTK", "POINT")
@@ -30,6 +30,10 @@ CONTEXTS = [
     ("print-comma", ["10 PRINT {s},{n}"]),
     ("print-at", ["10 PRINT @{n},{n};{s}"]),
     ("on", ["10 ON {n} GOTO 20,30", "15 Z=5:END", "20 Z=1:END", "30 Z=2"]),
+    ("on-gosub", ["10 ON {n} GOSUB 20,30:Z=Z+5:END", "20 Z=1:RETURN", "30 Z=2:RETURN"]),
+    ("if-gosub", ["10 IF {n}>1 THEN GOSUB 20:Y={n}", "15 END", "20 Z={n}:RETURN"]),
+    ("after-comment", ["10 REM X", "20 ON {n} GOTO 30,30", "30 Z={n}"]),
+    ("after-assign-of-function", ["10 X=1:A$=\"7\":Z={n}", "20 C(1)={n}"]),
     ("read", ["7 DIM C(9)", "8 DATA 5,6", "10 READ C({n}),Z"]),
     ("input", ["7 DIM C(9)", "10 INPUT C({n})"]),
     ("width", ["10 WIDTH {n}"]),
@@ -126,9 +130,34 @@ def main():
     for tag, tpl in CONTEXTS:
         for k in range(per):
             add(tag, fill(tpl, rng, nums_c, strs_c), k % 2 == 0)
+    # every expression position of the grammar (harness/positions.py) with a nest of convertible functions in it
+    simple_n = [t for t in nums_c if len(t) <= 9 and "-" not in t and "NOT" not in t]
+    simple_s = [t for t in strs_c if len(t) <= 9]
+    for nm, lines in positions.NUM_POSITIONS:
+        if nm in ("elseif-condition", "elseif-arm"):
+            # an ELSE IF chain without a final ELSE spins in the emitted LOOP (C02's recorded finding): nothing after it can be
+            # judged; the chains with a final ELSE (here and in CONTEXTS) cover the same positions
+            continue
+        for k in range(4 if thorough else 2):
+            body = positions.fill(lines, "{n}", gen.render(rng.choice(simple_n)))
+            lines2 = ["5 INPUT A,B,A$", "7 DIM C(9),D(2,9)"] + body + ([] if any(l.startswith("90 ") for l in body) else ["90 END"])
+            key = ("\n".join(lines2), True)
+            if key not in seen:
+                seen.add(key)
+                plan.append({"lines": lines2, "opts": {"add_standard_prefix": False, "initialize_vars": True}, "scripts": scripts(), "fuel": 120, "tag": "pos:" + nm})
+    for nm, lines in positions.STR_POSITIONS:
+        if nm in ("input-prompt-target", "elseif-condition"):        # a variable position; the spinning chain (see above)
+            continue
+        for k in range(4 if thorough else 2):
+            body = positions.fill(lines, "{s}", gen.render(rng.choice(simple_s)))
+            lines2 = ["5 INPUT A,B,A$", "7 DIM C(9),D(2,9)"] + body + ["90 END"]
+            key = ("\n".join(lines2), True)
+            if key not in seen:
+                seen.add(key)
+                plan.append({"lines": lines2, "opts": {"add_standard_prefix": False, "initialize_vars": True}, "scripts": scripts(), "fuel": 120, "tag": "spos:" + nm})
     cases, vds = refcheck.run(rep, wd, plan)
     for c in cases:
-        rep.count("ctx:" + c["tag"])
+        rep.count("ctx:" + c["tag"].split(":")[0])
     ok = refcheck.tally(rep, cases, vds)
     picked, cv, rejected = refcheck.canaries(rep, rng, ok, wd, mutate)
     o = {"add_standard_prefix": False}
